@@ -82,7 +82,10 @@ func TestVerif_C08(t *testing.T) {
 		}
 		w := newMWorld()
 		w.cntRule = func(int, string, int) uint64 { return 0 }
-		h := mocrelay.NewMergeHandler(mkChildren(w, nch)...)
+		h, nestedMerge := mMerge(r, mkChildren(w, nch))
+		if nestedMerge {
+			rep.Count("handlers_with_a_nested_merge", 1)
+		}
 		// several clients may share one merged handler and the same subscription ids: the
 		// bookkeeping of one connection must not leak into another
 		session := func(r *rand.Rand, sidx int) {
@@ -129,6 +132,10 @@ func TestVerif_C08(t *testing.T) {
 				}
 				for c := 0; c < nch; c++ {
 					p := mPlan{delaySeed: r.Uint64(), ignoreClos: r.IntN(2) == 0}
+					if nch <= 6 && r.IntN(14) == 0 {
+						p.refuse = true // this child answers CLOSED: the merged EOSE can never be due
+						g.refused = true
+					}
 					ns := r.IntN(6)
 					for k := 0; k < ns; k++ {
 						ev := vk.Pick(r, pool)
@@ -334,6 +341,14 @@ func c08Judge(rep *vk.Report, g *mGen, mine []rRecv, nch int, fail func(sig, why
 		}
 	}
 	switch {
+	case g.refused:
+		// a child that refused the REQ never sends its EOSE: no merged EOSE is ever due
+		rep.Count("eose_must_not_a_child_refused", 1)
+		cls += "/child-refused"
+		if nE != 0 {
+			fail("eose/early", fmt.Sprintf("the client received EOSE for %q although a child answered the REQ with CLOSED and never sent an EOSE", g.sub), g)
+			return "x", cls
+		}
 	case g.closeCall == 0:
 		rep.Count("eose_must", 1)
 		cls += "/noclose"
